@@ -1,4 +1,5 @@
 import LicenseExpr.Lemmas.Tiles
+import LicenseExpr.Lemmas.CoverTiles
 import LicenseExpr.Lemmas.BLits
 import LicenseExpr.Lemmas.Lex
 import LicenseExpr.Model.Spec
@@ -12,10 +13,10 @@ concatenation of the words of the recognised tokens".
 
 Proved: the lexer is lossless; the simple tokenizer tiles the text; unknown-word merging and WITH
 grouping preserve tiling (so, from a tiling first stage, the triples handed to the parser tile the
-text); the licenses of the returned expression are exactly the license tokens, in text order. That
-the *automaton* tokenizer's first stage tiles the text is C17's covering clause, checked by the
-correspondence run and the Spec (`specC17`, `specC01`), not proved here: `C01_default_partial`
-states the composition under that hypothesis.
+text); the licenses of the returned expression are exactly the license tokens, in text order. The
+*automaton* tokenizer's first stage tiles the text too (C17's covering clause, Lemmas/Cover.lean and
+Lemmas/CoverTiles.lean), so `C01_default` holds for every automaton — also one that does not belong
+to the table — and every text; `C01_tokens` is the statement for `Licensing.tokenize` in either mode.
 -/
 namespace LE
 
@@ -36,6 +37,44 @@ theorem C01_default_partial (c : Cls) (strict : Bool) (ps : List Piece) (raw mer
     (h0 : Tiles ps raw) (h2 : mergeUnknown c none raw = .ok merged)
     (h3 : groupWith c strict merged = .ok grouped) : Tiles ps grouped :=
   groupWith_tiles c strict merged _ grouped ((mergeUnknown_tiles c none raw _ merged h0 h2).1 rfl) h3
+
+/-- the automaton tokenizer's first stage tiles the text, whatever the automaton -/
+theorem advanced_tiles (c : Cls) (tr : Trie TVal) (text : Str) :
+    Tiles (wordPieces c text) (advancedTokensW c tr text) :=
+  finalOK_tiles ofTok (fun _ => rfl) (fun _ => rfl) _ _ (wordPieces_ok c text)
+    (kept_plus_uncovered_ok text _ (wordPieces_ok c text) _
+      (sweep_disjoint _ (sortToks_sorted _))
+      (fun k hk => iter_aligned c tr text true k ((sortToks_mem _ k).mp (sweep_sub _ k hk))))
+
+/-- **C01 (default tokenizer)**: when `Licensing.tokenize()` in default mode succeeds, its tokens
+    before the hand-over tile the non-blank pieces of the text. -/
+theorem C01_default (c : Cls) (tr : Trie TVal) (strict : Bool) (text : Str) (merged grouped : List STok)
+    (h2 : mergeUnknown c none (advancedTokensW c tr text) = .ok merged)
+    (h3 : groupWith c strict merged = .ok grouped) : Tiles (wordPieces c text) grouped :=
+  C01_default_partial c strict _ _ merged grouped (advanced_tiles c tr text) h2 h3
+
+/-- **C01 (tokens, both modes)**: whenever `Licensing.tokenize` succeeds, the tokens it hands to the
+    parser are the images of a token list that tiles the words of the text. -/
+theorem C01_tokens (c : Cls) (T : Table) (tr : Trie TVal) (simple strict : Bool) (text : Str) (toks : List PTok)
+    (h : ltokW c T tr simple strict text = .ok toks) :
+    ∃ grouped, Tiles (wordPieces c text) grouped ∧ toPToks grouped = .ok toks := by
+  unfold ltokW at h
+  cases h1 : rawTokensW c T tr simple text with
+  | error e => simp [h1, bind, Except.bind] at h
+  | ok raw =>
+    cases h2 : mergeUnknown c none raw with
+    | error e => simp [h1, h2, bind, Except.bind] at h
+    | ok merged =>
+      cases h3 : groupWith c strict merged with
+      | error e => simp [h1, h2, h3, bind, Except.bind] at h
+      | ok grouped =>
+        simp [h1, h2, h3, bind, Except.bind] at h
+        refine ⟨grouped, ?_, h⟩
+        unfold rawTokensW at h1
+        split at h1
+        · exact C01_simple c T strict text raw merged grouped h1 h2 h3
+        · simp at h1; subst h1
+          exact C01_default c tr strict text merged grouped h2 h3
 
 theorem tokLits_ptoks (toks : List PTok) : BP.tokLits (toks.map (·.t)) = toks.filterMap ptokAtom := by
   induction toks with
